@@ -406,6 +406,13 @@ func sharedObjectCommon(cc *ssa.CallCommon) *ssa.Global {
 			recv = x.X
 		case *ssa.TypeAssert:
 			recv = x.X
+		case *ssa.Call:
+			// singleton getter: func GetX() T { return xInstance }
+			g := getterGlobal(x)
+			if g == nil {
+				return nil
+			}
+			return g
 		case *ssa.Global:
 			t := shortType(x.Type())
 			if strings.Contains(t, "sync.Mutex") || strings.Contains(t, "sync.RWMutex") || strings.Contains(t, "sync.Once") || strings.Contains(t, "sync.WaitGroup") || strings.Contains(t, "sync.Map") || strings.Contains(t, "log.Logger") {
@@ -417,4 +424,51 @@ func sharedObjectCommon(cc *ssa.CallCommon) *ssa.Global {
 		}
 	}
 	return nil
+}
+
+// getterGlobal: call is to a parameterless function whose every return is the
+// load of one package-level variable (the repo's singleton accessors).
+func getterGlobal(call *ssa.Call) *ssa.Global {
+	f := call.Call.StaticCallee()
+	if f == nil || f.Blocks == nil || len(f.Params) != 0 || f.Signature.Results().Len() != 1 {
+		return nil
+	}
+	var g *ssa.Global
+	for _, b := range f.Blocks {
+		for _, in := range b.Instrs {
+			ret, ok := in.(*ssa.Return)
+			if !ok {
+				continue
+			}
+			v := ret.Results[0]
+			for {
+				if ci, isCI := v.(*ssa.ChangeInterface); isCI {
+					v = ci.X
+					continue
+				}
+				if mi, isMI := v.(*ssa.MakeInterface); isMI {
+					v = mi.X
+					continue
+				}
+				break
+			}
+			u, isU := v.(*ssa.UnOp)
+			if !isU || u.Op != token.MUL {
+				return nil
+			}
+			gg, isG := u.X.(*ssa.Global)
+			if !isG || (g != nil && g != gg) {
+				return nil
+			}
+			g = gg
+		}
+	}
+	if g == nil {
+		return nil
+	}
+	t := shortType(g.Type())
+	if strings.Contains(t, "log.Logger") {
+		return nil
+	}
+	return g
 }
